@@ -375,7 +375,7 @@ def run(tier, seed, started):
     c = res.counters
     if c.get('headers_requests', 0) < 500 or c.get('history_requests', 0) < 300 or \
             not c.get('growth_steps'):
-        raise common.Broken(f'vacuous C17 run: {c}')
+        common.vacuous(PROP, res, f'vacuous C17 run: {c}')
     coverage = {
         'evaluations': c['headers_requests'] + c['history_requests'] + c['growth_steps'],
         'distinct_nontrivial': len(res.sets.get('length_vs_limit', ())) + c['headers_requests'],
